@@ -83,11 +83,20 @@ def impl_case(case):
             shutil.rmtree(d, ignore_errors=True)
         if case.get("fixed") and r["outcome"] == "ok":
             # the same pair once more with a fixed-sequence file (pepper-compiler --fixed)
-            fr = implrun.compile_files({"prog.comp": case[tag], "fix.fixed": case["fixed"]}, "prog", fixed="fix.fixed")
-            if fr["outcome"] == "ok":
-                try: fr["lines"] = pepper.read_pil(fr["text"])
-                except ValueError as e: fr["lines"] = None
-                del fr["text"]
+            fr = implrun.compile_files({"prog.comp": case[tag], "fix.fixed": case["fixed"]}, "prog", fixed="fix.fixed", keep=True)
+            fd = fr.pop("dir", None)
+            try:
+                if fr["outcome"] == "ok":
+                    try: fr["lines"] = pepper.read_pil(fr["text"])
+                    except ValueError as e: fr["lines"] = None
+                    del fr["text"]
+                    # ... and through the designer front-end and the finisher as well
+                    a, conv = implrun.designer_arrays(os.path.join(fd, "out.pil"), False)
+                    if a["outcome"] == "ok":
+                        f = implrun.finish_pipeline(fd, conv, implrun.fill_design(a["eq"], a["wc"], a["st"], R.Random(case["seed"] + 1)))
+                        fr["finish"] = {"outcome": f["outcome"], "error": f.get("error")}
+            finally:
+                if fd: shutil.rmtree(fd, ignore_errors=True)
             r["fixed"] = fr
         out[tag] = r
     return out
@@ -235,6 +244,9 @@ def run(tier, seed, build):
                         failures.append({"kind": "predicate", "key": "fixed-den-changed", "summary": "with a fixed-sequence file, inserting zero-length domains changes the templates of other nucleotides", "replay": frep})
                 except ValueError as e:
                     failures.append({"kind": "predicate", "key": "fixed-pil-illformed", "summary": "fixed + zero-length: the emitted .pil is not well formed: %s" % e, "replay": frep})
+                if bf.get("finish", {}).get("outcome") == "ok" and zf.get("finish", {}).get("outcome") != "ok":
+                    failures.append({"kind": "predicate", "key": "fixed-finish", "summary": "with a fixed-sequence file, the finisher cannot process the program once zero-length domains are inserted: %s" % str(zf.get("finish"))[:200], "replay": frep})
+                elif bf.get("finish", {}).get("outcome") == "ok": dist["fixed_finished_both"] = dist.get("fixed_finished_both", 0) + 1
         if z["arrays"]["strand"]["outcome"] == "ok" and z.get("finish", {}).get("outcome") != "ok":
             failures.append({"kind": "predicate", "key": "finish", "summary": "the finisher cannot process the program with zero-length domains: %s" % str(z.get("finish"))[:200], "replay": rep})
     # system leg: a signal bound to a super-sequence port with a zero-length member, both back-ends
